@@ -18,15 +18,13 @@ Check C18_imports_oracle_free : forall pa pa' pd pd' t,
    Rust's Ord for str, upper case before lower case): K-exp compares this text, order included, with every
    variant of the line the real exporter produced, so another sort key is a correspondence mismatch *)
 Theorem C18_sa_line_bytewise_sorted : forall pi t, admissible pi ->
-  exists l, sa_line pi t = "from sqlalchemy import " +++ join ", " l
-            /\ Permutation l (hs_of_inserts (sa_inserts t) [])
-            /\ StronglySorted (fun a b => String.compare a b <> Gt) l.
+  exists l, Permutation l (hs_of_inserts (sa_inserts t) []) /\ StronglySorted (fun a b => String.compare a b <> Gt) l
+            /\ sa_line pi t = match l with [] => [] | _ => ["from sqlalchemy import " +++ join ", " l] end.
 Proof. exact sa_line_bytewise_sorted. Qed.
 Print Assumptions C18_sa_line_bytewise_sorted.
 Check C18_sa_line_bytewise_sorted : forall pi t, admissible pi ->
-  exists l, sa_line pi t = "from sqlalchemy import " +++ join ", " l
-            /\ Permutation l (hs_of_inserts (sa_inserts t) [])
-            /\ StronglySorted (fun a b => String.compare a b <> Gt) l.
+  exists l, Permutation l (hs_of_inserts (sa_inserts t) []) /\ StronglySorted (fun a b => String.compare a b <> Gt) l
+            /\ sa_line pi t = match l with [] => [] | _ => ["from sqlalchemy import " +++ join ", " l] end.
 
 Theorem C18_datetime_line_bytewise_sorted : forall pi t, admissible pi ->
   exists l, Permutation l (hs_of_inserts (dt_inserts t) []) /\ StronglySorted (fun a b => String.compare a b <> Gt) l
